@@ -168,29 +168,29 @@ def d2_d3_d4_mutators(ctx, c, reader):
                 if var is None:
                     ctx.assume('R-SIB', 'D2', g, call, construct, inst, detail='written data is not a plain name')
                     continue
-                we, wn, unknown = _guard_profile(g, call, var)
-                if unknown:
+                # path conditions: fold the branch tests with the dictionary bound to {} and to a non-empty value; the
+                # access mode is taken as 'r+' (mode gates are C11's business) and existence tests stay undecided
+                from ..pathcond import runs_under as _ru
+                from ._trunc import folder as _folder
+                modes = {'self._accessmode': 'r+', 'self.accessmode': 'r+'}
+                r_empty = _ru(g, call, _folder(dict(modes, **{var: {}}), g))
+                r_full = _ru(g, call, _folder(dict(modes, **{var: {'k': 1}}), g))
+                if r_empty is not False and r_full is not False and r_empty is not True:
+                    # the write is reachable for an empty dictionary only through a test that could not be folded
                     ctx.bad('R-SIB', 'D2', g, call, construct, inst,
-                            detail=f'the write is conditional on `{unknown[0]}`, which is not an emptiness '
-                                   f'test of `{var}`: some non-empty updates are not persisted')
+                            detail=f'the write is conditional on something that is not an emptiness test of `{var}`: for '
+                                   f'an empty dictionary it may run (a metadata.json containing {{}}), or some non-empty '
+                                   f'updates are not persisted')
                     continue
-                if we:
+                if r_empty is True:
                     ctx.bad('R-SIB', 'D2', g, call, construct, inst,
                             detail=f'the write also runs when `{var}` is empty: a metadata.json containing '
                                    f'{{}} is created')
                     continue
-                if not wn:
-                    ctx.bad('R-SIB', 'D2', g, call, construct, inst,
-                            detail='the write does not run for a non-empty dictionary')
-                    continue
-                # every path to the normal exit that skips the write takes an 'empty' edge
-                cfg = cfg_of(g)
-                edges = _emptiness_edges(g, var)
-                skip = cfg.can_reach(cfg.entry, cfg.exit, avoid={cfg.node_for(call)}, avoid_edges=edges,
-                                     skip_labels=('exc',))
-                ctx.decide(not skip, 'R-SIB', 'D2', g, call, construct, inst,
+                ctx.decide(r_full is True, 'R-SIB', 'D2', g, call, construct, inst,
                            detail='a path reaches the normal exit without writing although the dictionary '
-                                  'is non-empty (early return / extra condition): the change is not persisted')
+                                  'is non-empty (early return / extra condition): the change is not persisted'
+                           if r_full is None else 'the write does not run for a non-empty dictionary')
         # D4: nothing mutating precedes the write in update
         if name == 'update' and sites:
             for e in ctx.E.primitives(f):
@@ -218,15 +218,13 @@ def d2_d3_d4_mutators(ctx, c, reader):
             if isinstance(mo, ast.Constant) and mo.value is True:
                 ctx.ok('R-BELIEF', 'D3', f, e.node, construct, inst + ' (missing_ok=True)')
                 continue
-            guarded = False
-            for p, field in enclosing(f.node, e.node):
-                if isinstance(p, ast.If) and field == 'body' and any(is_exists_call(x) for x in ast.walk(p.test)):
-                    try:
-                        guarded = bool(fold_exists(p.test))
-                    except Exception:
-                        guarded = False
-                    if guarded:
-                        break
+            # path conditions: with every existence test folded to False (the file is absent) the unlink is unreachable
+            from ..pathcond import runs_under as _ru2
+            from ..rules import eval_bool as _eb
+
+            def _absent(t):
+                return _eb(t, lambda x: False if is_exists_call(x) else None)
+            guarded = any(is_exists_call(x) for x in own_nodes(f.node)) and _ru2(f, e.node, _absent) is False
             if guarded:
                 ctx.ok('R-BELIEF', 'D3', f, e.node, construct, inst + ' (exists() test)')
                 continue
